@@ -1930,3 +1930,97 @@ Proof.
   do 3 eexists. split; [eexists; split; [vm_compute; reflexivity | left; reflexivity]|].
   split; [vm_compute; reflexivity | split; reflexivity].
 Qed.
+
+(* ================================================================ no panic on decodable input *)
+Lemma rmap_ok : forall A B (f : A -> res B) l,
+  (forall a, In a l -> exists b, f a = Ok b) -> exists l', rmap f l = Ok l'.
+Proof.
+  intros A B f. induction l as [|a l IH]; intro H; [exists []; reflexivity|].
+  destruct (H a (or_introl eq_refl)) as [b Hb].
+  destruct (IH (fun y Hy => H y (or_intror Hy))) as [l' Hl'].
+  exists (b :: l'). cbn [rmap]. rewrite Hb. cbn [rbind]. rewrite Hl'. reflexivity.
+Qed.
+
+Lemma export_attrs_no_panic : forall x attrs,
+  wf_ctx x -> decodable attrs -> exists out, export_attrs x attrs = Ok out.
+Proof.
+  intros x attrs Hx Hd.
+  assert (Hasn : external_asn x < 4294967296).
+  { destruct Hx as [H1 H2]. unfold external_asn. destruct (x_confed x =? 0); assumption. }
+  destruct Hd as (_ & Hpath & _). unfold export_attrs. destruct (x_role x); cbv beta iota zeta.
+  - rewrite external_asn_model.
+    destruct (rmap_ok _ _ (fun a => if a_code a =? AS_PATH
+                                    then rbind (as_path_strip_confed a) (as_path_prepend SEG_SEQ (external_asn x))
+                                    else Ok a)
+                (filter (fun a => negb (ebgp_strips (a_code a))) attrs)) as [l' Hl'].
+    { intros a Ha. apply filter_In in Ha. destruct Ha as [Ha _]. destruct (a_code a =? AS_PATH) eqn:E; [|eauto].
+      apply N.eqb_eq in E. destruct (Hpath a Ha E) as [segs Hs].
+      destruct (ebgp_edit_path (external_asn x) a segs Hasn Hs) as (b & asns & rest & Eb & _).
+      unfold ebgp_edit in Eb. apply N.eqb_eq in E. rewrite E in Eb. eauto. }
+    rewrite Hl'. cbn [rbind]. destruct (has_code AS_PATH attrs); cbn [rbind]; [eauto|].
+    destruct (as_path_prepend_is_path SEG_SEQ (external_asn x) empty_as_path [] empty_as_path_is_path
+                ltac:(unfold SEG_SEQ; lia) Hasn) as (p & _ & _ & Ep & _).
+    rewrite Ep. cbn [rbind]. eauto.
+  - cbn [rbind]. eauto.
+  - cbn [rbind]. eauto.
+  - cbn [rbind]. eauto.
+  - destruct Hx as [Hl _].
+    destruct (rmap_ok _ _ (fun a => if a_code a =? AS_PATH then as_path_prepend SEG_CONFED_SEQ (x_lasn x) a else Ok a) attrs)
+      as [l' Hl'].
+    { intros a Ha. destruct (a_code a =? AS_PATH) eqn:E; [|eauto].
+      apply N.eqb_eq in E. destruct (Hpath a Ha E) as [segs Hs].
+      destruct (as_path_prepend_is_path SEG_CONFED_SEQ (x_lasn x) a segs Hs ltac:(unfold SEG_CONFED_SEQ; lia) Hl)
+        as (b & _ & _ & Eb & _). eauto. }
+    rewrite Hl'. cbn [rbind]. destruct (has_code AS_PATH attrs); cbn [rbind]; [eauto|].
+    destruct (as_path_prepend_is_path SEG_CONFED_SEQ (x_lasn x) empty_as_path [] empty_as_path_is_path
+                ltac:(unfold SEG_CONFED_SEQ; lia) Hl) as (p & _ & _ & Ep & _).
+    rewrite Ep. cbn [rbind]. eauto.
+Qed.
+
+Lemma policy_stage_decodable : forall x pol cid fam p a nh,
+  policy_keeps_decodable pol -> decodable (p_attrs p) ->
+  policy_stage x pol cid fam p = Some (a, nh) -> decodable (llgr_stage p a).
+Proof.
+  intros x pol cid fam p a nh Hk Hd H.
+  destruct (policy_stage_inv _ _ _ _ _ _ _ H) as (a1 & Hpol & Ha). subst a.
+  apply llgr_stage_decodable, reflect_stage_decodable. eapply Hk; [|exact Hpol].
+  apply pre_policy_decodable. exact Hd.
+Qed.
+
+Lemma addpath_reaches_no_panic : forall fixed x d rep top e,
+  wf_ctx x -> (forall pid a nh s, In (pid, a, nh, s) top -> decodable a) ->
+  exists r, addpath_reaches fixed x d rep e top = Ok r.
+Proof.
+  intros fixed x d rep. induction top as [|[[[pid a] nh] s] t IH]; intros e Hx Hd; [eexists; reflexivity|].
+  cbn [addpath_reaches].
+  assert (Ht : forall pid a nh s, In (pid, a, nh, s) t -> decodable a) by (intros; eapply Hd; right; eassumption).
+  destruct (negb (em_contains_path e d pid) || match rep with Some r0 => r0 =? pid | None => false end || (fixed && src_llgr s)).
+  - destruct (export_attrs_no_panic x a Hx (Hd pid a nh s (or_introl eq_refl))) as [a' Ea]. rewrite Ea. cbn [rbind].
+    destruct (IH (em_mark_sent e d pid) Hx Ht) as [r Hr]. rewrite Hr. cbn [rbind]. eauto.
+  - apply IH; assumption.
+Qed.
+
+(* process_nlri_change cannot panic on attribute vectors the decoder produces *)
+Theorem C09_no_panic_on_decodable : forall fixed x pol emax raddr cid c e,
+  wf_ctx x -> policy_keeps_decodable pol ->
+  (forall p, In p (c_paths c) -> decodable (p_attrs p)) ->
+  exists r, process_change_v fixed x pol emax raddr cid c e = Ok r.
+Proof.
+  intros fixed x pol emax raddr cid c e Hx Hk Hd. unfold process_change_v. destruct (emax =? 1).
+  - destruct (negb (c_best_changed c) && _); [eauto|].
+    destruct (c_paths c) as [|best rest] eqn:Ep; [destruct (em_was_sent e (c_dest c)); eauto|].
+    destruct (visible x raddr cid best); [|destruct (em_was_sent e (c_dest c)); eauto].
+    destruct (policy_stage x pol cid (c_family c) best) as [[a nh]|] eqn:Es; [|destruct (em_was_sent e (c_dest c)); eauto].
+    assert (Hb : decodable (p_attrs best)) by (apply Hd; try rewrite Ep; left; reflexivity).
+    destruct (export_attrs_no_panic x _ Hx (policy_stage_decodable _ _ _ _ _ _ _ Hk Hb Es)) as [a' Ea].
+    rewrite Ea. cbn [rbind]. eauto.
+  - destruct (negb (c_any_changed c)); [eauto|].
+    match goal with |- exists r, rbind (addpath_reaches _ _ _ _ ?e1 ?top) _ = _ =>
+      destruct (addpath_reaches_no_panic fixed x (c_dest c) (c_replaced c) top e1 Hx) as [r Hr] end.
+    { intros pid a nh s Hin. apply in_flat_map in Hin. destruct Hin as (p & Hp & Hin).
+      destruct (policy_stage x pol cid (c_family c) p) as [[a1 nh1]|] eqn:Es; [|contradiction].
+      destruct Hin as [Hin|[]]. inversion Hin; subst.
+      apply In_firstn in Hp. apply filter_In in Hp. destruct Hp as [Hp _].
+      eapply policy_stage_decodable; [exact Hk | apply Hd; exact Hp | exact Es]. }
+    rewrite Hr. cbn [rbind]. eauto.
+Qed.
